@@ -18,7 +18,8 @@ RULE = ("Tables of 1-40 rows with K of either sign (incl. 0 and -0.0), angles in
         "phase (mod 2pi); pack->unpack -> same names, physically equal values, equivalent units (identical when the "
         "table's own units are requested); indexing / copy / mean / std / median_period keep t_ref, poly_trend, "
         "n_offsets and units; median_period is a member row whose P is a median. Non-trivial: >=2 rows with at least "
-        "one negative K, or a non-default unit / metadata.")
+        "one negative K, or a non-default unit / metadata."
+        " Also: single-precision columns, tied periods, empty selections (slice / mask / index array) and their copies, unpack with a units mapping longer than the array, mean/std must keep the table's own units exactly.")
 SHARDS = {"quick": 2, "thorough": 16}
 BUDGET = {"quick": 70, "thorough": 700}
 
